@@ -57,6 +57,40 @@ fn many_names(rng: &mut Rng) -> String {
     s
 }
 
+/// Several sibling and nested FB instances whose types declare directly addressed variables: the order in which their
+/// bindings are registered decides the RefTable/IoMap of the container and, for shared addresses, which writer wins.
+fn io_instances(rng: &mut Rng) -> String {
+    let ntypes = 2 + rng.usize(2);
+    let mut s = String::new();
+    for t in 0..ntypes {
+        let qw = rng.usize(4) * 2;
+        let qx = 8 + rng.usize(4);
+        let mw = rng.usize(4) * 2;
+        s += &format!(
+            "FUNCTION_BLOCK Drv{t}\nVAR_INPUT v : INT; END_VAR\nVAR_OUTPUT q AT %QW{qw} : INT; b AT %QX{qx}.{bit} : BOOL; END_VAR\nVAR m AT %MW{mw} : INT; i AT %IW{iw} : INT; END_VAR\nq := v + INT#{t};\nb := v > INT#{thr};\nm := m + v + i;\nEND_FUNCTION_BLOCK\n",
+            bit = rng.usize(8),
+            iw = rng.usize(3) * 2,
+            thr = rng.usize(30)
+        );
+    }
+    s += "FUNCTION_BLOCK Pair\nVAR d1 : Drv0; d2 : Drv1; d3 : Drv0; END_VAR\nVAR_OUTPUT w AT %QW14 : INT; END_VAR\nVAR_INPUT k : INT; END_VAR\nd1(v := k + INT#5);\nd2(v := k + INT#1);\nd3(v := k + INT#9);\nw := d1.q + d2.q + d3.q;\nEND_FUNCTION_BLOCK\n";
+    let ninst = 3 + rng.usize(6);
+    let mut names: Vec<String> = (0..ninst).map(|i| format!("{}{}", ["unit", "Axis", "valve_", "M", "zz", "aa", "Pump", "q"][i % 8], i)).collect();
+    rng.shuffle(&mut names);
+    s += "PROGRAM Main\nVAR\n  tick : INT;\n";
+    for (i, n) in names.iter().enumerate() {
+        s += &format!("  {n} : Drv{};\n", i % ntypes);
+    }
+    s += "  pr1 : Pair;\n  pr2 : Pair;\n  lq AT %QW16 : INT;\nEND_VAR\ntick := tick + INT#1;\n";
+    let mut order: Vec<usize> = (0..names.len()).collect();
+    rng.shuffle(&mut order);
+    for i in order {
+        s += &format!("{}(v := tick + INT#{});\n", names[i], i * 7);
+    }
+    s += "pr1(k := tick);\npr2(k := tick + INT#100);\nlq := tick;\nEND_PROGRAM\n";
+    s
+}
+
 fn job_json(text: &str, trace: &[CycleIn]) -> J {
     json!({"text": text, "trace": trace.iter().map(|c| json!({"dt": c.dt_ns, "in": c.inputs.iter().map(|(n, t, v)| json!([n, t.name(), match v { Sv::I(x) => x.to_string(), Sv::F(f) => format!("f{:016x}", f.to_bits()) }])).collect::<Vec<_>>()})).collect::<Vec<_>>()})
 }
@@ -157,11 +191,15 @@ pub fn run(sh: &mut Shard) {
         let mut jobs = Vec::new();
         for k in 0..12u64 {
             let mut g = rng.fork(round * 100 + k);
-            let (text, trace) = match k % 4 {
+            let (text, trace) = match k % 5 {
                 0 => {
                     let t = many_names(&mut g);
                     let tr: Vec<CycleIn> = (0..6).map(|_| CycleIn { dt_ns: *g.pick(&[0, 1_000_000, 3_000_000, 500_000]), inputs: vec![("trigger".into(), Ty::Bool, Sv::I(g.below(2) as i128))] }).collect();
                     (t, tr)
+                }
+                2 => {
+                    let t = io_instances(&mut g);
+                    (t, (0..4).map(|_| CycleIn { dt_ns: 1_000_000, inputs: vec![] }).collect())
                 }
                 1 => {
                     let (_, src) = crate::engines::c11::SEEDS[g.usize(crate::engines::c11::SEEDS.len())];
@@ -248,6 +286,9 @@ fn batch(sh: &mut Shard, work: &std::path::Path, exe: &std::path::Path, nproc: u
             if ok_compile && alive.len() >= 2 && first.2[1].as_u64().unwrap_or(0) > 0 {
                 if interned >= 20 {
                     sh.count("jobs_with_20_or_more_names", 1);
+                }
+                if text.contains("FUNCTION_BLOCK Drv0") {
+                    sh.count("jobs_with_sibling_fb_io_bindings", 1);
                 }
                 sh.nontrivial(&fnv(text));
             } else {
